@@ -485,6 +485,23 @@ pub fn sites(tier: Tier) -> Vec<Site> {
             other => acc.violate(i, "C17|missing-file-not-an-error".into(), format!("{other:?}"), json!({"site": "missing-file", "index": i})),
         }
     }));
+    // no memory between threads: histories of 2 and 3 parses (+ re-writes) spread over two threads
+    {
+        let g = generated();
+        let mut corpus: Vec<(String, (bool, Vec<u8>))> = vec![];
+        for (k, c) in g.iter().enumerate() {
+            if k % (g.len() / 9).max(1) == 0 && corpus.len() < 9 { corpus.push((c.name.clone(), (c.smx, c.bytes.clone()))); }
+        }
+        corpus.push(("truncated pth".into(), (false, g[1].bytes[..g[1].bytes.len() - 1].to_vec())));
+        corpus.push(("not a file".into(), (true, b"nothing".to_vec())));
+        sites.push(crate::crossthread::site("C17", "cross-thread-parses", "parse + write of PTH / SMX files", corpus, |(smx, b): &(bool, Vec<u8>)| {
+            if *smx {
+                Smx::read_le(&mut Cursor::new(&b[..])).map(|f| { let mut c = Cursor::new(Vec::new()); let w = f.write_le(&mut c).is_ok(); (format!("{f:?}").len(), w, c.into_inner()) }).map_err(|_| ())
+            } else {
+                Pth::read_le(&mut Cursor::new(&b[..])).map(|f| { let mut c = Cursor::new(Vec::new()); let w = f.write_le(&mut c).is_ok(); (format!("{f:?}").len(), w, c.into_inner()) }).map_err(|_| ())
+            }
+        }));
+    }
     sites
 }
 
